@@ -14,6 +14,7 @@ def run(ctx):
     panics.rule_P_VALID(ctx, reach, 12)
     import maps
     maps.rule_U_CHARS(ctx)
+    panics.rule_R_BORDER(ctx, 10)
     T = tables.Tables(ctx)
     tables.rule_T_DISJOINT(ctx, T)
     tables.rule_T_NONEMPTY(ctx, T)
